@@ -69,14 +69,33 @@ def honoured : SPc → Bool
 theorem honoured_sOwnsQ {pc : SPc} (h : honoured pc = true) : sOwnsQ pc = true := by
   cases pc <;> simp_all [honoured, sOwnsQ]
 
-structure Live (n : Nat) (s : State) : Prop where
+/-- program consistency of every thread -/
+structure LiveC (n : Nat) (s : State) : Prop where
   cons : ∀ u, consF (decide (u ∈ s.pause)) (s.th u).pc (s.th u).prog = true
   inert : ∀ u, n < u → (s.th u).pc = IPc.idle ∧ (s.th u).prog = []
   zprog : (s.th 0).prog = []
   wb : ∀ u, (s.th u).pc = IPc.wBlocked → u ∈ s.pWait
+
+/-- pending notifications of the pause protocol -/
+structure LiveJ (s : State) : Prop where
   j1 : s.spc = SPc.acqP → (∀ u, contInFlight (s.th u).pc = false) → s.pause ≠ []
   j2 : (honoured s.spc = true ∨ s.qWaiting = true) →
         (∀ u, contInFlight (s.th u).pc = false) → s.paused ≠ []
+
+structure Live (n : Nat) (s : State) : Prop where
+  c : LiveC n s
+  j : LiveJ s
+
+theorem Live.cons {n : Nat} {s : State} (h : Live n s) :
+    ∀ u, consF (decide (u ∈ s.pause)) (s.th u).pc (s.th u).prog = true := h.c.cons
+theorem Live.inert {n : Nat} {s : State} (h : Live n s) :
+    ∀ u, n < u → (s.th u).pc = IPc.idle ∧ (s.th u).prog = [] := h.c.inert
+theorem Live.zprog {n : Nat} {s : State} (h : Live n s) : (s.th 0).prog = [] := h.c.zprog
+theorem Live.wb {n : Nat} {s : State} (h : Live n s) :
+    ∀ u, (s.th u).pc = IPc.wBlocked → u ∈ s.pWait := h.c.wb
+theorem Live.j2 {n : Nat} {s : State} (h : Live n s) :
+    (honoured s.spc = true ∨ s.qWaiting = true) →
+      (∀ u, contInFlight (s.th u).pc = false) → s.paused ≠ [] := h.j.j2
 
 theorem addSet_ne_nil' (l : List Tid) (t : Tid) : addSet l t ≠ [] := by
   unfold addSet; split
@@ -90,10 +109,41 @@ theorem unionSet_eq_nil' {a b : List Tid} (h : unionSet a b = []) : b = [] := by
     have : x ∈ unionSet a (x :: xs) := mem_unionSet.mpr (Or.inr (by simp))
     rw [h] at this; cases this
 
-set_option maxHeartbeats 8000000 in
-theorem live_stepIface {n : Nat} {s s' : State} {t : Tid} {evs : List Ev}
-    (h : Live n s) (hw : W s) (hp : PInv s) (hq : QW s) (hl : LQ s) (ht : t ≠ 0)
-    (hs : stepIface Cfg.fixed s t = some (s', evs)) : Live n s' := by
+set_option maxHeartbeats 2000000 in
+theorem livec_stepIface {n : Nat} {s s' : State} {t : Tid} {evs : List Ev}
+    (h : LiveC n s) (hw : W s) (hq : QW s) (ht : t ≠ 0)
+    (hs : stepIface Cfg.fixed s t = some (s', evs)) : LiveC n s' := by
+  unfold stepIface at hs
+  simp only [Cfg.fixed, wakeOneP, wakeQ, startOp] at hs
+  (repeat' split at hs) <;>
+  first
+  | (cases hs; done)
+  | (simp only [Bool.false_eq_true, if_false, Option.some.injEq, Prod.mk.injEq] at hs
+     obtain ⟨rfl, -⟩ := hs
+     obtain ⟨a1, a2, a3, a4⟩ := h
+     obtain ⟨b1, b2, b3, b4, b5, b6, b7⟩ := hw
+     constructor <;> (try simp only [setPc]) <;>
+       grind [consF, WF, mem_addSet, QW])
+
+set_option maxHeartbeats 2000000 in
+theorem livec_stepSolver {n : Nat} {s s' : State} {evs : List Ev}
+    (h : LiveC n s) (hw : W s)
+    (hs : stepSolver Cfg.fixed s = some (s', evs)) : LiveC n s' := by
+  unfold stepSolver at hs
+  simp only [Cfg.fixed, runQueue, afterRun, checkPause, wakeAllP] at hs
+  (repeat' split at hs) <;>
+  first
+  | (cases hs; done)
+  | (simp only [Option.some.injEq, Prod.mk.injEq] at hs
+     obtain ⟨rfl, -⟩ := hs
+     obtain ⟨a1, a2, a3, a4⟩ := h
+     obtain ⟨b1, b2, b3, b4, b5, b6, b7⟩ := hw
+     constructor <;> (repeat' split) <;> grind [consF, WF])
+
+set_option maxHeartbeats 2000000 in
+theorem livej_stepIface {s s' : State} {t : Tid} {evs : List Ev}
+    (h : LiveJ s) (hw : W s) (hp : PInv s) (hq : QW s) (hl : LQ s) (ht : t ≠ 0)
+    (hs : stepIface Cfg.fixed s t = some (s', evs)) : LiveJ s' := by
   have hh := @honoured_sOwnsQ s.spc
   unfold stepIface at hs
   simp only [Cfg.fixed, wakeOneP, wakeQ, startOp] at hs
@@ -102,19 +152,19 @@ theorem live_stepIface {n : Nat} {s s' : State} {t : Tid} {evs : List Ev}
   | (cases hs; done)
   | (simp only [Bool.false_eq_true, if_false, Option.some.injEq, Prod.mk.injEq] at hs
      obtain ⟨rfl, -⟩ := hs
-     obtain ⟨a1, a2, a3, a4, a5, a6⟩ := h
+     obtain ⟨a5, a6⟩ := h
      obtain ⟨b1, b2, b3, b4, b5, b6, b7⟩ := hw
      obtain ⟨c1, c2⟩ := hp
      obtain ⟨q1, q2, q3, q4, q5, q7, q6⟩ := hl
      constructor <;> (try simp only [setPc]) <;>
-       grind [holdsP, ownsQ, sOwnsQ, contInFlight, honoured, consF, WF, mem_addSet,
-              addSet_ne_nil', mustWait, QW, InLoop])
+       grind [holdsP, ownsQ, sOwnsQ, contInFlight, honoured, mem_addSet,
+              addSet_ne_nil', QW, InLoop])
 
-set_option maxHeartbeats 8000000 in
-theorem live_stepSolver {n : Nat} {s s' : State} {evs : List Ev}
-    (h : Live n s) (hw : W s) (hp : PInv s) (hq : QW s) (hl : LQ s)
+set_option maxHeartbeats 2000000 in
+theorem livej_stepSolver {s s' : State} {evs : List Ev}
+    (h : LiveJ s) (hw : W s) (hp : PInv s) (hq : QW s) (hl : LQ s)
     (hal : s'.spc ≠ SPc.crashed)
-    (hs : stepSolver Cfg.fixed s = some (s', evs)) : Live n s' := by
+    (hs : stepSolver Cfg.fixed s = some (s', evs)) : LiveJ s' := by
   unfold stepSolver at hs
   simp only [Cfg.fixed, runQueue, afterRun, checkPause, wakeAllP] at hs
   (repeat' split at hs) <;>
@@ -122,13 +172,24 @@ theorem live_stepSolver {n : Nat} {s s' : State} {evs : List Ev}
   | (cases hs; done)
   | (simp only [Option.some.injEq, Prod.mk.injEq] at hs
      obtain ⟨rfl, -⟩ := hs
-     obtain ⟨a1, a2, a3, a4, a5, a6⟩ := h
+     obtain ⟨a5, a6⟩ := h
      obtain ⟨b1, b2, b3, b4, b5, b6, b7⟩ := hw
      obtain ⟨c1, c2⟩ := hp
      obtain ⟨q1, q2, q3, q4, q5, q7, q6⟩ := hl
      constructor <;> (repeat' split) <;>
-       grind [holdsP, ownsQ, sOwnsQ, contInFlight, honoured, consF, WF, mem_unionSet,
+       grind [holdsP, ownsQ, sOwnsQ, contInFlight, honoured, mem_unionSet,
               unionSet_eq_nil', QW, InLoop])
+
+theorem live_stepIface {n : Nat} {s s' : State} {t : Tid} {evs : List Ev}
+    (h : Live n s) (hw : W s) (hp : PInv s) (hq : QW s) (hl : LQ s) (ht : t ≠ 0)
+    (hs : stepIface Cfg.fixed s t = some (s', evs)) : Live n s' :=
+  ⟨livec_stepIface h.c hw hq ht hs, livej_stepIface h.j hw hp hq hl ht hs⟩
+
+theorem live_stepSolver {n : Nat} {s s' : State} {evs : List Ev}
+    (h : Live n s) (hw : W s) (hp : PInv s) (hq : QW s) (hl : LQ s)
+    (hal : s'.spc ≠ SPc.crashed)
+    (hs : stepSolver Cfg.fixed s = some (s', evs)) : Live n s' :=
+  ⟨livec_stepSolver h.c hw hs, livej_stepSolver h.j hw hp hq hl hal hs⟩
 
 theorem wf_progsOf {ps : List (List Op)} (hwf : ∀ p ∈ ps, WF false p = true) (u : Tid) :
     WF false (progsOf ps u) = true := by
@@ -142,7 +203,8 @@ theorem wf_progsOf {ps : List (List Op)} (hwf : ∀ p ∈ ps, WF false p = true)
 
 theorem live_init (ps : List (List Op)) (hwf : ∀ p ∈ ps, WF false p = true) :
     Live ps.length (init (progsOf ps)) := by
-  constructor <;> try (simp [init, contInFlight, honoured, progsOf]; done)
+  refine ⟨?_, by constructor <;> simp [init, contInFlight, honoured]⟩
+  constructor <;> try (simp [init, progsOf]; done)
   · intro u
     simp only [init, List.not_mem_nil, decide_false, consF]
     exact wf_progsOf hwf u
